@@ -15,7 +15,7 @@ structure OutReq where
 
 inductive Inp where
   | none
-  | logs (sz : Sizer) (max : Int) (p : List Res)
+  | logs (sig : String) (sz : Sizer) (max : Int) (p : List Res)
   | metrics (sz : Sizer) (max : Int) (p : List MRes)
 
 structure MS where
@@ -33,8 +33,11 @@ def showReqs {P : Type} (o : Ops P) (showP : P → String) (rs : Option (List (R
 def parseSizer (s : String) : Option Sizer :=
   if s = "items" then some ⟨false⟩ else if s = "bytes" then some ⟨true⟩ else Option.none
 
-/-- property oracle on the implementation's output (independent of the model's output) -/
-def checkLogs (sz : Sizer) (max : Int) (src : List Res) (outs : List OutReq) : List String :=
+def szName (sz : Sizer) : String := if sz.bytes then "bytes" else "items"
+
+/-- property oracle on the implementation's output (independent of the model's output).  Signatures are structural:
+`<clause>/<signal>-<sizer>` so that an open finding about one signal/sizer never hides another one. -/
+def checkLogs (sig : String) (sz : Sizer) (max : Int) (src : List Res) (outs : List OutReq) : List String :=
   match outs.mapM (fun o => Codec.parsePayload o.toks) with
   | Option.none => ["prop conserve=FAIL sig=C04/mergesplit/unparsable-output"]
   | some ps =>
@@ -42,15 +45,38 @@ def checkLogs (sz : Sizer) (max : Int) (src : List Res) (outs : List OutReq) : L
     let b := flatten src
     let ids := fun (l : List Ctx) => l.map (·.2.2.id)
     [ if permB a b then "prop conserve=ok"
-      else if permB (ids a) (ids b) then "prop conserve=FAIL sig=C04/mergesplit/item-context-changed"
-      else "prop conserve=FAIL sig=C04/mergesplit/items-lost-or-duplicated",
+      else if permB (ids a) (ids b) then s!"prop conserve=FAIL sig=C04/mergesplit/item-context-changed/{sig}-{szName sz}"
+      else s!"prop conserve=FAIL sig=C04/mergesplit/items-lost-or-duplicated/{sig}-{szName sz}",
       -- items that weigh nothing in the configured unit (a profile without samples under the items sizer) do not count
       match (outs.zip ps).find? (fun (o, p) => max != 0 && o.sz > max && ((flatten p).filter (fun c => itemSize sz c.2.2 > 0)).length > 1) with
-      | some (o, p) => s!"prop bound=FAIL sig=C04/mergesplit/batch-exceeds-max size={o.sz} max={max} items={(flatten p).length}"
+      | some (o, p) => s!"prop bound=FAIL sig=C04/mergesplit/batch-exceeds-max/{sig}-{szName sz} size={o.sz} max={max} items={(flatten p).length}"
       | Option.none => "prop bound=ok",
       match (outs.zip ps).find? (fun (o, p) => o.cs != -1 && o.cs != payloadSize sz p) with
-      | some (o, p) => s!"prop cached=FAIL sig=C04/mergesplit/cached-size-wrong cached={o.cs} size={payloadSize sz p}"
+      | some (o, p) => s!"prop cached=FAIL sig=C04/mergesplit/cached-size-wrong/{sig}-{szName sz} cached={o.cs} size={payloadSize sz p}"
       | Option.none => "prop cached=ok" ]
+
+/-- the metric the pinned `extract*DataPoints` leave in a batch when no data point fitted: typed, no points, and
+none of name / unit / description / metadata (the generator always names its metrics) -/
+def isEmptyFragment (m : Metric) : Bool :=
+  m.points.isEmpty && m.mmeta.ty != 0 && m.mmeta.name == 0 && m.mmeta.unit == 0 && m.mmeta.desc == 0 &&
+  m.mmeta.md == 0 && m.mmeta.base == 0
+
+/-- the payload without those fragments and without the scope / resource copies that are in the batch only because
+of them -/
+def stripFragments (p : List MRes) : List MRes :=
+  p.filterMap (fun r =>
+    let scopes := r.scopes.filterMap (fun s =>
+      let ms := s.metrics.filter (fun m => !isEmptyFragment m)
+      if ms.isEmpty && !s.metrics.isEmpty then Option.none else some { s with metrics := ms })
+    if scopes.isEmpty && !r.scopes.isEmpty then Option.none else some { r with scopes := scopes })
+
+def hasFragment (p : List MRes) : Bool := p.any (fun r => r.scopes.any (fun s => s.metrics.any isEmptyFragment))
+
+/-- a data point whose context differs from the source only by the metric being the anonymous typed fragment of the
+pinned code (same resource, scope, both schema URLs, same type) -/
+def anonymousFragmentOf (src out : MCtx) : Bool :=
+  src.1 == out.1 && src.2.1 == out.2.1 && src.2.2.2 == out.2.2.2 &&
+  (src.2.2.1 == out.2.2.1 || out.2.2.1 == { zeroMMeta with ty := src.2.2.1.ty })
 
 def checkMetrics (sz : Sizer) (max : Int) (src : List MRes) (outs : List OutReq) : List String :=
   match outs.mapM (fun o => Codec.parseMPayload o.toks) with
@@ -59,15 +85,23 @@ def checkMetrics (sz : Sizer) (max : Int) (src : List MRes) (outs : List OutReq)
     let a := ps.flatMap mflatten
     let b := mflatten src
     let ids := fun (l : List MCtx) => l.map (·.2.2.2.id)
+    let over := (outs.zip ps).filter (fun (o, p) => max != 0 && o.sz > max && (mflatten p).length > 1)
+    -- explained = bytes sizer, the batch holds empty fragments, and without them (and the containers copied for them) it fits
+    let explained := fun (x : OutReq × List MRes) => sz.bytes && hasFragment x.2 && mpayloadSize sz (stripFragments x.2) ≤ max
     [ if permB a b then "prop conserve=ok"
-      else if permB (ids a) (ids b) then "prop conserve=FAIL sig=C04/mergesplit/metric-identity-lost"
-      else "prop conserve=FAIL sig=C04/mergesplit/points-lost-or-duplicated",
-      match (outs.zip ps).find? (fun (o, p) => max != 0 && o.sz > max && (mflatten p).length > 1) with
-      | some (o, p) => s!"prop bound=FAIL sig=C04/mergesplit/batch-exceeds-max size={o.sz} max={max} items={(mflatten p).length}"
-      | Option.none => "prop bound=ok",
+      else if permB (ids a) (ids b) then
+        if a.all (fun o => b.any (fun s => s.2.2.2.id == o.2.2.2.id && anonymousFragmentOf s o)) then
+          s!"prop conserve=FAIL sig=C04/mergesplit/metric-identity-lost/anonymous-split-off-fragment"
+        else s!"prop conserve=FAIL sig=C04/mergesplit/point-context-changed/metrics-{szName sz}"
+      else s!"prop conserve=FAIL sig=C04/mergesplit/points-lost-or-duplicated/metrics-{szName sz}",
+      match over.find? (fun x => !explained x), over.head? with
+      | some (o, p), _ => s!"prop bound=FAIL sig=C04/mergesplit/batch-exceeds-max/metrics-{szName sz} size={o.sz} max={max} items={(mflatten p).length}"
+      | Option.none, some (o, p) =>
+        s!"prop bound=FAIL sig=C04/mergesplit/batch-exceeds-max/metrics-bytes-empty-fragment size={o.sz} max={max} without_fragments={mpayloadSize sz (stripFragments p)}"
+      | Option.none, Option.none => "prop bound=ok",
       -- the bytes accounting of a metric cut in two is an upper bound (the data message's own length prefix may shrink)
       match (outs.zip ps).find? (fun (o, p) => o.cs != -1 && (if sz.bytes then o.cs < mpayloadSize sz p else o.cs != mpayloadSize sz p)) with
-      | some (o, p) => s!"prop cached=FAIL sig=C04/mergesplit/cached-size-wrong cached={o.cs} size={mpayloadSize sz p}"
+      | some (o, p) => s!"prop cached=FAIL sig=C04/mergesplit/cached-size-wrong/metrics-{szName sz} cached={o.cs} size={mpayloadSize sz p}"
       | Option.none => "prop cached=ok" ]
 
 def msHandler : Handler MS where
@@ -100,7 +134,7 @@ def msHandler : Handler MS where
               | some p1, some p2 =>
                 let o := logsOps sz
                 let r := mergeSplit o max { p := p1, cached := c1 } (c2.map (fun c => { p := p2, cached := c }))
-                ({ s with inp := .logs sz max (p1 ++ p2) }, showReqs o Codec.showPayload r)
+                ({ s with inp := .logs sig sz max (p1 ++ p2) }, showReqs o Codec.showPayload r)
               | _, _ => (s, ["obs bad-op"])
         | _, _, _, _, _ => (s, ["obs bad-op"])
       | _ => (s, ["obs bad-op"])
@@ -117,13 +151,17 @@ def msHandler : Handler MS where
     | [_, "diverge"] => { s with implDiverged := true }
     | _ => s
   onEnd := fun s =>
-    if s.implDiverged then ["prop terminates=FAIL sig=C04/mergesplit/does-not-terminate"] else
+    if s.implDiverged then
+      [match s.inp with
+       | .logs sig sz _ _ => s!"prop terminates=FAIL sig=C04/mergesplit/does-not-terminate/{sig}-{szName sz}"
+       | .metrics sz _ _ => s!"prop terminates=FAIL sig=C04/mergesplit/does-not-terminate/metrics-{szName sz}"
+       | .none => "prop terminates=FAIL sig=C04/mergesplit/does-not-terminate"] else
     match s.bad with
     | some b => [s!"prop conserve=FAIL sig=C04/mergesplit/unparsable-output {b}"]
     | Option.none =>
       match s.inp with
       | .none => []
-      | .logs sz max p => checkLogs sz max p s.impl.reverse
+      | .logs sig sz max p => checkLogs sig sz max p s.impl.reverse
       | .metrics sz max p => checkMetrics sz max p s.impl.reverse
 
 /-! ### batcher -/
